@@ -231,8 +231,8 @@ func runC01(c *Ctx) {
 		inc := an.LocalStore("n").Where("increment", func(u *an.Unit, s *an.Site) bool { return s.RHS == nil })
 		r.Guard("C01-V7", u, inc, "p0[i].Type == raftpb.EntryConfChange", an.GuardOpts{Min: 1})
 		// every conf-change entry is counted: the increment is reached whenever the type matches
-		rng := u.Match(an.M{}.Range())
-		r.Check("C01-V7", "raft.numOfPendingConf: scans all given entries", "", len(rng) == 1 && u.C.Term(rng[0].Rng.X) == "p0", "")
+		lc := u.LoopCollections() // either loop form
+		r.Check("C01-V7", "raft.numOfPendingConf: scans all given entries", "", len(lc) == 1 && lc[0] == "p0", "")
 	}
 	hupAll := c.W.AllSites(an.Call("raft.(*raft).hup"), "hup", nil)
 	r.Min("C01-V5", len(hupAll), 2, "calls of hup")
